@@ -32,7 +32,11 @@ func c01(c *Ctx) {
 			// self-check of the exclusion table: a replayed witness must be inside some exclusion,
 			// otherwise the random search would report it again under another spelling
 			if id := c01WitnessExcluded(mode, tc); id == "" {
-				c.Extra["corpus_witness_outside_exclusions"] = line
+				if prev, ok := c.Extra["corpus_witness_outside_exclusions"].(string); ok {
+					c.Extra["corpus_witness_outside_exclusions"] = prev + " | " + line
+				} else {
+					c.Extra["corpus_witness_outside_exclusions"] = line
+				}
 			} else {
 				st.excluded["corpus:"+id]++
 			}
